@@ -519,20 +519,140 @@ func c04ShortRead(p *core.Program, r *core.Report) {
 	file("negative", neg, "sz < 0 panics")
 	file("bound", append(bound, order...), "sz > buffer.Len() panics before the allocation")
 	file("count", count, "n != sz panics")
-	// stream mode: loop until nothing is left, error panics
+	// stream mode: the loop that fills the buffer from the connection runs while bytes are missing and
+	// counts exactly what each Read delivered; an error panics. Judged on the linear form of the loop
+	// condition: D > 0 with D = requested - received at loop entry, decreasing by the Read's count.
 	okLoop := false
+	info := sinfo
 	ast.Inspect(fi.Decl.Body, func(n ast.Node) bool {
-		if loop, ok := n.(*ast.ForStmt); ok && loop.Cond != nil && strings.HasSuffix(norm(loop.Cond), ">0") {
-			hasPanic := false
-			ast.Inspect(loop.Body, func(m ast.Node) bool {
-				if call, ok := m.(*ast.CallExpr); ok {
-					if id, ok := call.Fun.(*ast.Ident); ok && id.Name == "panic" {
-						hasPanic = true
+		loop, ok := n.(*ast.ForStmt)
+		if !ok || loop.Cond == nil {
+			return true
+		}
+		// n of `n, err := X.Read(…)` inside the loop
+		var nObj types.Object
+		hasPanic := false
+		ast.Inspect(loop.Body, func(m ast.Node) bool {
+			switch v := m.(type) {
+			case *ast.AssignStmt:
+				if len(v.Rhs) == 1 && len(v.Lhs) == 2 {
+					if call, ok := ast.Unparen(v.Rhs[0]).(*ast.CallExpr); ok {
+						if sel, ok := call.Fun.(*ast.SelectorExpr); ok && sel.Sel.Name == "Read" {
+							if id, ok := v.Lhs[0].(*ast.Ident); ok {
+								nObj = info.ObjectOf(id)
+							}
+						}
 					}
+				}
+			case *ast.CallExpr:
+				if id, ok := v.Fun.(*ast.Ident); ok && id.Name == "panic" {
+					hasPanic = true
+				}
+			}
+			return true
+		})
+		if nObj == nil || !hasPanic {
+			return true
+		}
+		be, ok := ast.Unparen(loop.Cond).(*ast.BinaryExpr)
+		if !ok {
+			return true
+		}
+		l, rr := be.X, be.Y
+		switch be.Op {
+		case token.GTR:
+		case token.LSS:
+			l, rr = rr, l
+		default:
+			return true
+		}
+		atom := func(x ast.Expr) (string, bool) {
+			if id, ok := ast.Unparen(x).(*ast.Ident); ok {
+				if o := info.ObjectOf(id); o != nil {
+					if o == szObj {
+						return "sz", true
+					}
+					if _, isVar := o.(*types.Var); isVar {
+						return "v:" + id.Name, true
+					}
+				}
+			}
+			return "", false
+		}
+		lf, ok1 := linearize(info, nil, l, atom)
+		rf, ok2 := linearize(info, nil, rr, atom)
+		if !ok1 || !ok2 {
+			return true
+		}
+		d := lf.plus(rf, -1)
+		// the progress variable: the one local of D the body moves by n
+		for k, coef := range d {
+			if !strings.HasPrefix(k, "v:") || (coef != 1 && coef != -1) {
+				continue
+			}
+			name := strings.TrimPrefix(k, "v:")
+			delta := int64(0)
+			moves := 0
+			ast.Inspect(loop.Body, func(m ast.Node) bool {
+				as, ok := m.(*ast.AssignStmt)
+				if !ok || len(as.Lhs) != 1 || len(as.Rhs) != 1 {
+					return true
+				}
+				id, ok := as.Lhs[0].(*ast.Ident)
+				if !ok || id.Name != name {
+					return true
+				}
+				rid, _ := ast.Unparen(stripConvs(info, as.Rhs[0])).(*ast.Ident)
+				isN := rid != nil && info.ObjectOf(rid) == nObj
+				switch {
+				case as.Tok == token.ADD_ASSIGN && isN:
+					delta, moves = 1, moves+1
+				case as.Tok == token.SUB_ASSIGN && isN:
+					delta, moves = -1, moves+1
+				default:
+					moves += 2
 				}
 				return true
 			})
-			okLoop = hasPanic
+			if moves != 1 || coef*delta != -1 {
+				continue
+			}
+			// D at loop entry is the requested size: the variable's initial value put into D
+			var initE ast.Expr
+			if as, ok := loop.Init.(*ast.AssignStmt); ok && len(as.Lhs) == 1 && len(as.Rhs) == 1 {
+				if id, ok := as.Lhs[0].(*ast.Ident); ok && id.Name == name {
+					initE = as.Rhs[0]
+				}
+			}
+			if initE == nil {
+				ast.Inspect(fi.Decl.Body, func(m ast.Node) bool {
+					if as, ok := m.(*ast.AssignStmt); ok && as.Pos() < loop.Pos() && len(as.Lhs) == len(as.Rhs) {
+						for i, lh := range as.Lhs {
+							if id, ok := lh.(*ast.Ident); ok && id.Name == name {
+								initE = as.Rhs[i]
+							}
+						}
+					}
+					return true
+				})
+			}
+			if initE == nil {
+				continue
+			}
+			inf, ok := linearize(info, nil, initE, atom)
+			if !ok {
+				continue
+			}
+			d0 := lform{}
+			for kk, vv := range d {
+				if kk != k {
+					d0[kk] = vv
+				}
+			}
+			d0 = d0.plus(inf, coef)
+			if d0.is(map[string]int64{"sz": 1}) {
+				okLoop = true
+			}
 		}
 		return true
 	})
